@@ -17,16 +17,18 @@ from vcheck import fmt_q, fmt_vec, fmt_crs, split_top
 import gen
 from props.common import diff_run, oracle_run, account
 from props import C17 as c17
+from props import vtmodel
 
-DRIVERS = ["adapters", "blocks", "blocks3", "blocks4", "mixed"]
+DRIVERS = ["adapters", "blocks", "blocks3", "blocks4", "mixed", "blocks_spmv", "adapters_vteig"]
+EXTRA_FLAGS = {"adapters_vteig": ["-I/usr/include/eigen3"]}
 MODEL = "adapters"
 ASSUMPTIONS = [
     "amgcl templates instantiated at the exact rational vq::Q execute the same code as at double",
     "in exact arithmetic preconditioned CG on an SPD system with a symmetric preconditioner terminates with the exact solution within n iterations (used to make all formulations comparable)",
     "mixed precision: a rounding statement, tested on the model problems in the double/float build, not proved",
-    "Eigen block value types are not driven (static_matrix only)",
+    "Eigen block value types (Eigen::Matrix<double,b,b>) are driven in double on dyadic data (every operation exact) for the block adapter + block spmv only; solves with Eigen blocks are not driven",
 ]
-TRUSTED_BASE = ["harness/drv_adapters.cpp (ops block, cplx, cplx_solve), drv_blocks*.cpp, drv_mixed.cpp; ocaml/adapters/ops_adapters.ml"]
+TRUSTED_BASE = ["harness/drv_adapters.cpp (ops block, cplx, cplx_solve), drv_blocks*.cpp, drv_blocks_spmv.cpp, drv_adapters_vt.cpp (Eigen build), drv_mixed.cpp; ocaml/adapters/ops_adapters.ml, ocaml/blockspmv/ops_blockspmv.ml (second extracted model driver: Extract_blockspmv.v)"]
 VARIANTS = ["scalar", "block", "mbs", "direct", "as_block", "as_scalar", "hybrid"]
 
 
@@ -97,6 +99,7 @@ def run(ctx, cases_override=None):
             if op == "bsolve": fails += run_wrappers(ctx, [("r0", int(l.split()[2]), l.split(" ", 1)[1], "full" if int(l.split()[4]) > 3 else "trunc", 0, None, None)])
             elif op == "cplx_solve": fails += run_cplx_solve(ctx, [l])
             elif op == "mixed": fails += run_mixed(ctx, [l])
+            elif op in ("bspmv", "hspmv", "bresid", "hresid", "eig_block"): fails += run_block_instance(ctx, [l])
             else:
                 f, _, _ = diff_run(ctx, "adapters", [l]); fails += f
         return fails
@@ -111,6 +114,7 @@ def run(ctx, cases_override=None):
             items = split_top(impl[sp[0]])
             ol.append("%s o.spmv_same %s %s" % (sp[0], sp[3], vtok(items[-1]))); byid[sp[0]] = l
     fails += oracle_run(ctx, ol, "C13: block formulation represents the same operator: block spmv = scalar spmv of the source matrix", lambda cid: byid[cid])
+    fails += run_block_instance(ctx)
     fails += run_cplx_solve(ctx, complex_solve_cases(tier, seed))
     # ---- W: wrappers (skipped when the adapter stage already failed: with a broken block adapter
     # the exact CG runs do not terminate early and only cost time; the failing input is already found)
@@ -118,6 +122,43 @@ def run(ctx, cases_override=None):
         fails += run_wrappers(ctx, wrapper_cases(tier, seed))
     # ---- M: mixed precision (tested)
     fails += run_mixed(ctx, mixed_cases(tier))
+    return fails
+
+
+def block_instance_cases(tier, seed):
+    """the objects of theorem C13_block_spmv: block spmv / residual (block vectors and hybrid scalar vectors)"""
+    out = []
+    for l in c17.block_cases(tier, seed + 11, prefix="bi"):
+        cid, _, rest = l.split(" ", 2)
+        out.append("%ss bspmv %s" % (cid, rest)); out.append("%sh hspmv %s" % (cid, rest))
+        toks = rest.split(); b = toks[0]; n = int(toks[1]); k = 3
+        for _ in range(n):
+            cnt = int(toks[k]); k += 1 + 2 * cnt
+        crs = " ".join(toks[1:k]); rest2 = toks[k:]
+        nx = int(rest2[0]); x = rest2[:1 + nx]; y = rest2[3 + nx:]
+        out.append("%sr bresid %s %s %s %s %s" % (cid, b, crs, " ".join(y), " ".join(x), " ".join(y)))
+        out.append("%sq hresid %s %s %s %s %s" % (cid, b, crs, " ".join(y), " ".join(x), " ".join(y)))
+    return out
+
+
+def run_block_instance(ctx, lines=None):
+    """Kernels.spmv / Kernels.residual evaluated AT THE SCALAR INSTANCE BlockS on BlockSpmv.block_matrix / as_rhs (second
+    extracted model driver) vs the C++ templates instantiated with static_matrix<Q,b,b> (exact) and with
+    Eigen::Matrix<double,b,b> (double, dyadic data)"""
+    tier, seed = ctx["tier"], ctx["seed"]
+    ctx2 = vtmodel.model_ctx(ctx)
+    if lines is None:
+        ex = block_instance_cases(tier, seed)
+        eg = c17.block_cases(tier, seed + 12, prefix="be", op="eig_block", dyadic=True)
+    else:
+        ex = [l for l in lines if l.split()[1] != "eig_block"]; eg = [l for l in lines if l.split()[1] == "eig_block"]
+    fails = []
+    if ex:
+        f, _, _ = diff_run(ctx2, "blocks_spmv", ex, theorem="correspondence drv_blocks_spmv vs Kernels.spmv / Kernels.residual at the Scalar instance BlockS on BlockSpmv.block_matrix (theorems C13_block_spmv, C13_block_residual, C13_hybrid_spmv_is_scalar, C13_hybrid_residual_is_scalar)")
+        fails += f
+    if eg:
+        f, _, _ = diff_run(ctx2, "adapters_vteig", eg, theorem="correspondence: block adapter + block spmv with Eigen::Matrix<double,b,b> values vs the model at BlockS (C13_block_spmv)", shards=8)
+        fails += f
     return fails
 
 
